@@ -1,5 +1,5 @@
 (* C12/Proofs.v — lemmas for C12/Props.v. *)
-From Coq Require Import String Ascii List Bool NArith ZArith Arith Lia Permutation.
+From Coq Require Import String Ascii List Bool NArith ZArith Arith Lia Permutation DecimalString DecimalN DecimalPos FinFun.
 From Tally Require Import C12.TextLib Gen.C12MerchantId Gen.C12Embed C12.Model.
 Import ListNotations.
 Open Scope N_scope.
@@ -844,4 +844,63 @@ Proof.
   rewrite (sumZ_perm _ _ (Permutation_map f (perm_flat_map j_txns _ _ (category_view_merchants _ H)))).
   f_equal. f_equal. induction ms as [|m ms IH]; [reflexivity|]. cbn [map flat_map]. f_equal.
   apply IH. inversion H; assumption.
+Qed.
+
+(* ===================================================================================== *)
+(* 5. the transaction rows of a merchant                                                  *)
+(* ===================================================================================== *)
+Lemma number_from_snd {A} (l : list A) : forall i, map snd (number_from i l) = l.
+Proof. induction l as [|x l IH]; intros i; [reflexivity|]. cbn [number_from map snd]. rewrite IH. reflexivity. Qed.
+Lemma number_from_fst {A} (l : list A) : forall i, map fst (number_from i l) = seq i (length l).
+Proof. induction l as [|x l IH]; intros i; [reflexivity|]. cbn [number_from map fst length seq]. rewrite IH. reflexivity. Qed.
+
+(* every analysed transaction is written, in order, unchanged — whatever their number *)
+Lemma embedded_txns_all j : map snd (embedded_txns j) = j_txns j.
+Proof. unfold embedded_txns. rewrite map_map. cbn [snd]. apply number_from_snd. Qed.
+Lemma embedded_txns_ids j : map fst (embedded_txns j) = map (txn_id (j_id j)) (seq 0 (length (j_txns j))).
+Proof. unfold embedded_txns. rewrite map_map. cbn [fst]. rewrite <- number_from_fst, map_map. reflexivity. Qed.
+
+(* str(i) is injective and made of digits *)
+Lemma cps_inj a b : cps a = cps b -> a = b.
+Proof.
+  unfold cps. intros H.
+  assert (G : list_ascii_of_string a = list_ascii_of_string b).
+  { revert H. generalize (list_ascii_of_string a) (list_ascii_of_string b).
+    induction l as [|x l IH]; intros [|y m] H; try discriminate; [reflexivity|].
+    cbn [map] in H. injection H as H1 H2. f_equal; [|apply IH, H2].
+    rewrite <- (ascii_N_embedding x), <- (ascii_N_embedding y), H1. reflexivity. }
+  rewrite <- (string_of_list_ascii_of_string a), <- (string_of_list_ascii_of_string b), G. reflexivity.
+Qed.
+
+Lemma to_uint_nonnil n : N.to_uint n <> Decimal.Nil.
+Proof. destruct n as [|p]; [discriminate|]. cbn. unfold Pos.to_uint. intros H.
+  pose proof (DecimalPos.Unsigned.to_uint_nonnil p) as G. apply G. unfold Pos.to_uint. exact H. Qed.
+
+Lemma dec_text_inj a b : dec_text a = dec_text b -> a = b.
+Proof.
+  unfold dec_text. intros H. apply cps_inj in H.
+  assert (G : Some (N.to_uint a) = Some (N.to_uint b)).
+  { rewrite <- (NilZero.usu _ (to_uint_nonnil a)), <- (NilZero.usu _ (to_uint_nonnil b)), H. reflexivity. }
+  injection G as G. rewrite <- (DecimalN.Unsigned.of_to a), <- (DecimalN.Unsigned.of_to b), G. reflexivity.
+Qed.
+
+Lemma txn_id_inj_index m a b : txn_id m a = txn_id m b -> a = b.
+Proof.
+  unfold txn_id. intros H. apply app_inv_head in H. injection H as H. apply dec_text_inj in H.
+  apply Nat2N.inj, H.
+Qed.
+
+(* the ids of a merchant's rows are pairwise distinct *)
+Lemma embedded_txns_ids_nodup j : NoDup (map fst (embedded_txns j)).
+Proof.
+  rewrite embedded_txns_ids. apply FinFun.Injective_map_NoDup; [|apply seq_NoDup].
+  intros a b. apply txn_id_inj_index.
+Qed.
+
+(* the embedded JSON text is printable ASCII: it is the same bytes in any ASCII-compatible file encoding *)
+Lemma esc_lt_printable j : Forall (fun x => 32 <= x /\ x <= 126)%N j -> Forall (fun x => 32 <= x /\ x <= 126)%N (esc_lt j).
+Proof.
+  intros H. unfold esc_lt. induction H as [|c j Hc Hj IH]; [constructor|]. cbn [flat_map].
+  apply Forall_app; split; [|exact IH]. destruct (N.eqb_spec c 60); [|repeat constructor; tauto].
+  unfold LT_ESC. apply uesc_printable. reflexivity.
 Qed.
